@@ -1,3 +1,223 @@
-/- Property theorems for C19 — to be filled in. -/
+/-
+  C19 — what is stored or queued is read back unchanged.
+
+  Part 1 (tables): `Stab.Gen.Schema` is regenerated from the source on every run (dataclass fields, INSERT /
+  UPDATE statements, row readers, message registry, the two serialiser loops, `deserialize_message`); the
+  theorems below are re-proved against it, so dropping a column, a row key, a popped key or changing one of
+  the serialisers breaks a proof obligation.
+  Part 2 (codec): the round trip `deserialize ∘ serialize` for an arbitrary dataclass spec satisfying the
+  naming discipline, instantiated at every registered message type.
+-/
+import Stab.Lemmas.Codec
+import Stab.Gen.Schema
+
 namespace Stab.Props.C19
+open Stab Stab.Codec
+open Stab.Gen
+
+/-! ## every field is persisted -/
+
+/-- `StageExecution` fields without a column of their own, and why that is not a loss:
+  * `tasks` — own table `task_executions` (insert_stage / store_stage call upsert_task for each);
+  * `output_reducers` — mirrored into `context['_output_reducers']` by `__post_init__` and rehydrated from
+    it on load (`reducersViaContext`), the context IS a column;
+  * `cleanup_on_failure`, `finalizer_names` — declared on the dataclass but read by NO code in
+    src/stabilize (`exempt_fields_are_unread`): a value set by the caller is lost on reload, which no
+    engine behaviour can observe (reported as finding F23, low severity). -/
+def stageExempt : List String := ["tasks", "output_reducers", "cleanup_on_failure", "finalizer_names"]
+
+/-- `Workflow` fields without a column: `stages` (own table); `config_version` — a fingerprint
+    `Orchestrator.start` attaches to the in-memory object for auditing, read by no code (F23). -/
+def workflowExempt : List String := ["stages", "config_version"]
+
+/-- each `StageExecution` field is written by `insert_stage` (column, bound parameter, dict key) and read
+    back by `row_to_stage` (row key, constructor keyword), except the exemptions above -/
+theorem every_stage_field_persisted :
+    ∀ f ∈ Schema.stageFields, f ∈ stageExempt ∨
+      (f ∈ Schema.stageInsertCols ∧ f ∈ Schema.stageInsertParams ∧ f ∈ Schema.stageRowKeys ∧ f ∈ Schema.stageCtorKwargs) := by
+  decide
+
+theorem every_task_field_persisted :
+    ∀ f ∈ Schema.taskFields,
+      f ∈ Schema.taskInsertCols ∧ f ∈ Schema.taskRowKeys ∧ f ∈ Schema.taskCtorKwargs
+      ∧ (f = "version" ∨ f ∈ Schema.taskInsertParams)
+      ∧ (f = "id" ∨ f ∈ Schema.taskUpdateSet.map (·.1)) := by
+  decide
+
+theorem every_workflow_field_persisted :
+    ∀ f ∈ Schema.workflowFields, f ∈ workflowExempt ∨
+      (f ∈ Schema.workflowInsertCols ∧ f ∈ Schema.workflowInsertParams ∧ f ∈ Schema.workflowRowKeys
+        ∧ f ∈ Schema.workflowCtorKwargs) := by
+  decide
+
+/-- every column is bound to the parameter of the same name, in the same position (no column / value
+    transposition); the only literal is the task's initial `version = 0` -/
+theorem insert_binds_same_named_parameters :
+    Schema.stageInsertVals = Schema.stageInsertCols.map (":" ++ ·)
+    ∧ Schema.stageInsertParams = Schema.stageInsertCols
+    ∧ Schema.workflowInsertVals = Schema.workflowInsertCols.map (":" ++ ·)
+    ∧ Schema.workflowInsertParams = Schema.workflowInsertCols
+    ∧ Schema.taskInsertVals = Schema.taskInsertCols.map (fun c => if c = "version" then "0" else ":" ++ c)
+    ∧ Schema.taskInsertParams = Schema.taskInsertCols.filter (· ≠ "version") := by
+  decide
+
+/-- nothing is read that is not written: every row key is an INSERT column -/
+theorem row_keys_are_columns :
+    (∀ k ∈ Schema.stageRowKeys, k ∈ Schema.stageInsertCols)
+    ∧ (∀ k ∈ Schema.taskRowKeys, k ∈ Schema.taskInsertCols)
+    ∧ (∀ k ∈ Schema.workflowRowKeys, k ∈ Schema.workflowInsertCols) := by
+  decide
+
+/-- the exemptions stay justified: the unpersisted fields are read nowhere, reducers travel in the context -/
+theorem exempt_fields_are_unread :
+    Schema.unpersistedReads = [("cleanup_on_failure", 0), ("config_version", 0), ("finalizer_names", 0)]
+    ∧ Schema.reducersViaContext = true := by
+  decide
+
+/-- F23, recorded: an empty `origin` is read back as the dataclass default `"unknown"` (`row['origin'] or
+    'unknown'`); `origin` is descriptive metadata, no engine code branches on it. -/
+theorem origin_empty_reads_unknown : Schema.originEmptyReadsUnknown = true := by decide
+
+/-- enums are stored by value and sent by name; for the three enums involved value = name -/
+theorem enum_values_are_names :
+    (∀ e ∈ Schema.syntheticStageOwner ++ Schema.joinType ++ Schema.splitType, e.1 = e.2)
+    ∧ Schema.syntheticStageOwner.map (·.1) = Phase.all.map Phase.name
+    ∧ Schema.joinType.map (·.1) = [JoinType.and, .or, .multiMerge, .discriminator, .nOfM].map JoinType.name := by
+  decide
+
+/-! ## saving a stage never alters fields the caller did not change -/
+
+/-- the columns a stage UPDATE writes -/
+def updatedColumns : List String := ["status", "context", "outputs", "start_time", "end_time", "version"]
+
+/-- all four stage UPDATE statements (store / transaction, with / without `expected_phase`) SET exactly
+    these six columns, five from the same-named parameter and `version = version + 1`, and are guarded by
+    `id`, `version` (and `status` for the phase-aware variant) -/
+theorem update_set_list :
+    ∀ u ∈ Schema.stageUpdates,
+      u.2.1 = [("status", ":status"), ("context", ":context"), ("outputs", ":outputs"),
+               ("start_time", ":start_time"), ("end_time", ":end_time"), ("version", "version + 1")]
+      ∧ (u.2.2.1 = [("id", ":id"), ("version", ":version")]
+         ∨ u.2.2.1 = [("id", ":id"), ("version", ":version"), ("status", ":expected_phase")]) := by
+  decide
+
+/-- the store's and the transaction's `store_stage` issue the same statements -/
+theorem two_store_stage_agree :
+    (Schema.stageUpdates.filter (·.1 = "store")).map (·.2) = (Schema.stageUpdates.filter (·.1 = "txn")).map (·.2)
+    ∧ (Schema.stageUpdates.filter (·.1 = "store")).length = 2 := by
+  decide
+
+/-- **an UPDATE leaves every column outside its SET list as it was** (any row, any new values) -/
+theorem update_touches_only (new old : Row) (c : String) (hc : c ∉ updatedColumns) :
+    lookup c (applyUpdate updatedColumns new old) = lookup c old :=
+  lookup_applyUpdate_of_not_mem updatedColumns new old c hc
+
+/-- …in particular every other stage column: dependencies, control-flow settings, identity -/
+theorem update_preserves_other_stage_columns (new old : Row) :
+    ∀ c ∈ Schema.stageInsertCols, c ∉ updatedColumns →
+      lookup c (applyUpdate updatedColumns new old) = lookup c old :=
+  fun c _ hc => update_touches_only new old c hc
+
+example : "join_threshold" ∈ Schema.stageInsertCols ∧ "join_threshold" ∉ updatedColumns
+    ∧ "requisite_stage_ref_ids" ∉ updatedColumns := by decide
+
+/-! ## messages -/
+
+/-- the generated registry satisfies the naming discipline the codec relies on (the conversions of
+    `deserialize_message` are keyed by field NAME): unique public field names; a `WorkflowStatus` field is
+    called `status`, an optional one `original_status`, a `SyntheticStageOwner` field `phase`; every `datetime`
+    field is popped; no plain field carries one of the converted names -/
+theorem gen_registry_ok :
+    Schema.messageTypes.all (fun t => match specOf t.2 with
+      | some sp => registryOk sp
+      | none => false) = true := by
+  decide
+
+/-- the generated conversion / pop tables and helper shapes are the model's -/
+theorem gen_deserializer_eq_model :
+    Schema.conversions = [("status", "WorkflowStatus", "isStr"), ("original_status", "WorkflowStatus", "truthy"),
+                          ("phase", "SyntheticStageOwner", "isStr")]
+    ∧ Schema.pops = popped
+    ∧ Schema.typeNameIsClassName = true ∧ Schema.createIsKwargsCall = true := by
+  decide
+
+/-- both serialisers have the canonical loop shape -/
+theorem gen_serializers_canonical :
+    Schema.queueSerializerShape = canonicalShape ∧ Schema.txnSerializerShape = canonicalShape := by
+  decide
+
+/-- **`Queue.push` and `AtomicTransaction.push_message` produce the same payload for every message**
+    (any attribute dict at all, well-typed or not) -/
+theorem txn_push_payload_eq_queue_push_payload (m : Fields) :
+    serializeWith Schema.txnSerializerShape m = serializeWith Schema.queueSerializerShape m := by
+  rw [gen_serializers_canonical.1, gen_serializers_canonical.2]
+
+/-- **round trip for every registered message type**: for every entry of `MESSAGE_TYPES` and every instance
+    whose attribute values have the annotated types, deserialising the serialised payload (either
+    serialiser) gives back every field unchanged, the four popped metadata fields re-defaulted -/
+theorem deserialize_serialize (t : String × List (String × String)) (ht : t ∈ Schema.messageTypes)
+    (sp : List (String × Kind)) (hsp : specOf t.2 = some sp)
+    (vals : String → PyVal) (dflt : String → PyVal)
+    (hv : ∀ f ∈ sp, conforms f.2 (vals f.1) = true) :
+    (serializeWith Schema.queueSerializerShape (inst vals sp)).bind (deserialize sp dflt)
+        = some (expected dflt (inst vals sp))
+    ∧ (serializeWith Schema.txnSerializerShape (inst vals sp)).bind (deserialize sp dflt)
+        = some (expected dflt (inst vals sp)) := by
+  have hok : registryOk sp = true := by
+    have := List.all_eq_true.mp gen_registry_ok t ht
+    simp only [hsp] at this
+    exact this
+  rw [gen_serializers_canonical.1, gen_serializers_canonical.2]
+  exact ⟨roundtrip vals sp dflt hok hv, roundtrip vals sp dflt hok hv⟩
+
+/-- every registered type has a well-formed spec (so the theorem above applies to each of them) -/
+theorem every_registered_type_has_spec :
+    Schema.messageTypes.all (fun t => (specOf t.2).isSome) = true ∧ Schema.messageTypes.length = 23 := by
+  decide
+
+/-- non-vacuity: a `CompleteTask` carrying both enum fields and an arbitrary JSON value survives -/
+example :
+    let sp : List (String × Kind) := [("message_id", .plain), ("created_at", .datetime), ("task_id", .plain),
+      ("status", .status), ("original_status", .optStatus)]
+    let m : Fields := [("message_id", .json (.str "7")), ("created_at", .time "2026"), ("task_id", .json (.other true "x")),
+      ("status", .status .failedContinue), ("original_status", .status .running)]
+    (serializeWith canonicalShape m).bind (deserialize sp defaultMark)
+      = some [("message_id", defaultMark "message_id"), ("created_at", defaultMark "created_at"),
+              ("task_id", .json (.other true "x")), ("status", .status .failedContinue),
+              ("original_status", .status .running)] := by
+  decide
+
+/-- a serialiser that wrote enums by VALUE would not round-trip (what the shape check protects against) -/
+example :
+    (serializeWith ["skip:_", "datetime:isoformat", "Enum:value", "else:id"] [("status", .status .running)]).bind
+      (deserialize [("status", .status)] defaultMark) ≠ some [("status", .status .running)] := by
+  decide
+
+/-! ## tasks come back in creation order -/
+
+/-- every `SELECT … FROM task_executions` orders by `id` -/
+theorem task_selects_order_by_id : ∀ q ∈ Schema.taskSelectOrder, q.2 = "id ASC" := by decide
+
+/-- **tasks are read in creation order**: task ids are ULIDs, assumed strictly increasing in creation order
+    (trusted: python-ulid monotonic within a process); whatever physical order the table holds the rows in,
+    `ORDER BY id` returns them in the order they were created -/
+theorem tasks_read_in_id_order (created rows : List (Nat × String))
+    (hmono : created.Pairwise (fun a b => a.1 < b.1)) (hrows : rows.Perm created) :
+    readTasks rows = created := by
+  unfold readTasks
+  have hp : (rows.mergeSort (fun a b => decide (a.1 ≤ b.1))).Perm created :=
+    (List.mergeSort_perm rows _).trans hrows
+  have hs := List.pairwise_mergeSort (le := fun (a b : Nat × String) => decide (a.1 ≤ b.1))
+    (by intro a b c h1 h2; simp only [decide_eq_true_eq] at *; omega)
+    (by intro a b; simp only [Bool.or_eq_true, decide_eq_true_eq]; omega) rows
+  have hc : created.Pairwise (fun a b => decide (a.1 ≤ b.1) = true) :=
+    hmono.imp (fun h => by simp only [decide_eq_true_eq]; omega)
+  refine List.Perm.eq_of_pairwise ?_ hs hc hp
+  intro a b ha hb h1 h2
+  simp only [decide_eq_true_eq] at h1 h2
+  exact eq_of_id_eq hmono (hp.subset ha) hb (by omega)
+
+example : readTasks [(3, "c"), (1, "a"), (2, "b")] = [(1, "a"), (2, "b"), (3, "c")] :=
+  tasks_read_in_id_order _ _ (by decide) (by decide)
+
 end Stab.Props.C19
